@@ -1511,6 +1511,10 @@ class GenFunctions(object):
 
         C_new.wrap.assign(c=True)#, fortran=True)
         C_new._PTR_C_CXX_index = node._function_index
+        if (result_is_ptr and not has_string_result and
+            result_typemap.sgroup in ["native", "char", "string", "void"]):
+            # The result is returned as it is: there are no cfi statements for it.
+            C_new.result_suffix = ""
 
         for arg in C_new.ast.params:
             attrs = arg.attrs
@@ -1709,6 +1713,12 @@ class GenFunctions(object):
         options = C_new.options
         C_new.wrap.assign(c=True)
         C_new._PTR_C_CXX_index = node._function_index
+        if (result_is_ptr and
+            result_typemap.sgroup in ["native", "char", "string", "void"] and
+            not (has_string_result or has_vector_result or need_cdesc_result)):
+            # The result is returned as it is (deref(raw), a native pointer
+            # without a shape): there are no bufferify statements for it.
+            C_new.result_suffix = ""
 
         for arg in C_new.ast.params:
             attrs = arg.attrs
